@@ -160,15 +160,17 @@ def sweep_slots(quick):
         m = base_topology()
         m["partials"][0]["samples"] = list(slots)
         yield {"sweep": "slots", "model": m, "flips": ["sample-slots", list(slots)]}
-    for lst in ([-1, 0, 1], [0, -1, 1], [-1, -1, 1, -1, 0], [-1] * 87 + [1], [1] + [-1] * 86 + [0]):
+    # ... and lists without any unused slot (all 88 keys / 32 patches / 64 performances assigned)
+    for lst in ([-1, 0, 1], [0, -1, 1], [-1, -1, 1, -1, 0], [-1] * 87 + [1], [1] + [-1] * 86 + [0],
+                [0] * 88, [1] * 88, [0, 1] * 44, [1] * 87 + [0], [0] * 44 + [1] * 44):
         m = base_topology()
         m["patches"][0]["partials"] = list(lst)
         yield {"sweep": "slots", "model": m, "flips": ["partial-list", [i for i, x in enumerate(lst) if x >= 0]]}
-    for lst in ([-1, 0, 1], [0, -1, 1], [-1] * 31 + [0], [1] + [-1] * 30 + [0]):
+    for lst in ([-1, 0, 1], [0, -1, 1], [-1] * 31 + [0], [1] + [-1] * 30 + [0], [0] * 32, [1] * 32, [0, 1] * 16, [1] * 31 + [0]):
         m = base_topology()
         m["performances"][0]["patches"] = list(lst)
         yield {"sweep": "slots", "model": m, "flips": ["patch-list", [i for i, x in enumerate(lst) if x >= 0]]}
-    for lst in ([-1, 0, 1], [1, -1, 0], [-1] * 63 + [1], [0] + [-1] * 62 + [1]):
+    for lst in ([-1, 0, 1], [1, -1, 0], [-1] * 63 + [1], [0] + [-1] * 62 + [1], [0] * 64, [1] * 64, [0, 1] * 32, [1] * 63 + [0]):
         m = base_topology()
         m["volumes"][0]["perfs"] = list(lst)
         yield {"sweep": "slots", "model": m, "flips": ["performance-list", [i for i, x in enumerate(lst) if x >= 0]]}
@@ -291,7 +293,7 @@ class Check(CheckBase):
             "x FAT version x key x name padding; (topology) base reference graph + every single edge flip of "
             "volume->performance->patch->partial->sample relations [thorough: all pairs of flips], no volumes, four "
             "samples per partial, unreferenced sample, orphan performance; (slots) every assignment of a partial's four sample "
-            "slots over {unused, 3 samples}, sparse partial / patch / performance lists incl. the last slot; (fatheader) "
+            "slots over {unused, 3 samples}, sparse and completely filled partial / patch / performance lists incl. the last slot; (fatheader) "
             "free-cluster count word x FAT version x chain length 1,2,4 x order; (sharedchain) two samples in one chain: 6 chain orders x 6 offset pairs x same partial / other performance; (names) 9 families of special name shapes x "
             "3 volume/performance names, judged by content only. non-trivial = permuted chain, cluster_top>0, "
             "reverse mode, window ending on a cluster boundary, or a flipped edge")
